@@ -616,6 +616,7 @@ fn exec_read(
     frag: Frag,
 ) -> Result<ReadOutcome, Violation> {
     let site = format!("{:?}/{:?}", case.ty, case.entry);
+    ctx.reset_polls();
     guarded(&site, || {
         let pipe = new_pipe("wire", false, usize::MAX);
         {
@@ -904,6 +905,7 @@ impl C07 {
         };
         let frag = Frag { mode: chunk_mode, short_reads, spurious };
 
+        ctx.reset_polls();
         guarded("roundtrip", || {
             let fwd = new_pipe("w->r", false, cap);
             {
@@ -1112,11 +1114,11 @@ impl Scenario for C07 {
         match tier { Tier::Quick => 2_500, Tier::Thorough => 60_000 }
     }
 
-    fn run(&self, kind: RunKind, tape: Tape, log: bool) -> (RunOut, Tape) {
+    fn run(&self, kind: RunKind, tier: Tier, tape: Tape, log: bool) -> (RunOut, Tape) {
         let ctx = Arc::new(SimCtx::new(tape, log, 50_000_000));
         let mut out = RunOut::default();
         let mut counters = Counters::default();
-        let res = self.run_inner(kind, &ctx, &mut out, &mut counters);
+        let res = self.run_inner(kind, tier, &ctx, &mut out, &mut counters);
         out.violation = res.err();
         counters.merge(&ctx.counters.lock().unwrap());
         out.counters = counters;
@@ -1194,6 +1196,7 @@ impl C07 {
     fn run_inner(
         &self,
         kind: RunKind,
+        tier: Tier,
         ctx: &Arc<SimCtx>,
         out: &mut RunOut,
         counters: &mut Counters,
@@ -1203,7 +1206,11 @@ impl C07 {
             match kind {
                 RunKind::Sweep(idx) => vec![Self::sweep_pdu(idx, &mut t)],
                 RunKind::Random => {
-                    let n = 1 + t.weighted(&[4, 3, 2, 2, 1, 1, 1, 1]);
+                    let n = if tier == Tier::Thorough {
+                        1 + t.weighted(&[4, 3, 2, 2, 1, 1, 1, 1, 1, 1, 1, 1, 1, 1, 1, 1])
+                    } else {
+                        1 + t.weighted(&[4, 3, 2, 2, 1, 1, 1, 1])
+                    };
                     (0..n).map(|_| gen_pdu(&mut t)).collect()
                 }
             }
